@@ -54,6 +54,9 @@ class Proto:
                 mode = const(c.args[0]) if c.args else 'r'
                 var = src(item.optional_vars) if item.optional_vars is not None else None
                 evs.append(Event('OPEN', s, (var, mode)))
+            elif m == 'open' and isinstance(c.func, ast.Attribute) and isinstance(s, ast.Assign) and len(s.targets) == 1 and isinstance(s.targets[0], ast.Name) and s.value is c:
+                # f = path.open(mode) outside a with statement: the handle is opened here (a later `with f:` only closes it)
+                evs.append(Event('OPEN', s, (s.targets[0].id, const(c.args[0]) if c.args else 'r')))
             elif name == 'disable' and item is not None:
                 evs.append(Event('DISABLE', s))
             elif name == 'log.add' and item is not None:
@@ -339,10 +342,10 @@ def check_key(model, rep):
            'keyword arguments do not enter the key with name and value, order-independently', statement='key-keywords')
     # the file that is opened is <cache dir> / <hex digest of the hasher>, whatever the intermediate values are called
     opens = [c for c in calls_in(w.node) if method_name(c) == 'open' and isinstance(c.func, ast.Attribute)]
-    ok = len(opens) == 1 and len(hdef) == 1
-    if ok:
-        m = pmatch('caching.current / K_', resolved(w.node, opens[0].func.value))
-        ok = m is not None and src(resolved(w.node, m['K_'])) == src(hdef[0].targets[0]) + '.hexdigest()'
+    ok = len(opens) >= 1 and len(hdef) == 1
+    for o_ in opens if ok else ():
+        m = pmatch('caching.current / K_', resolved(w.node, o_.func.value))
+        ok = ok and m is not None and src(resolved(w.node, m['K_'])) == src(hdef[0].targets[0]) + '.hexdigest()'
     rep.ob('R18.4', w.key, w.where(), ok, 'the entry file is named by the full hex digest' if ok else 'the cache file name is not the full digest of the key', statement='key-filename')
     # bypass when caching is off
     first = next((s for s in w.body if isinstance(s, ast.If)), None)
@@ -441,6 +444,47 @@ def check_users(model, rep):
             rep.ob('R18.7', f.key, f.where(), ok, f'the owner {f.cls.name} of the memoised method is hashable' if ok else f'{f.cls.name} owns a memoised method but is not hashable', statement='owner-hashable')
 
 
+def check_end_of_recursion(model, rep):
+    """R18.9: the end of a recursion is what the generator says (StopIteration), never a value it may yield: `next(resume, <constant>)`
+    makes an item equal to that constant indistinguishable from exhaustion - a recursion that yields None would be stored as finished
+    and every later run would stop there.  Only a sentinel object created for the purpose may serve as default."""
+    f = model.func('cache:Recursion.__iter__')
+    calls = [c for c in calls_in(f.node) if src(c.func) in ('next', 'builtins.next') and c.args and src(c.args[0]) == 'resume']
+    if not calls:
+        raise AnalysisError('Recursion.__iter__: next(resume) was not found')
+    for c in calls:
+        ok = len(c.args) == 1 and not c.keywords
+        if not ok:
+            d = resolved(f.node, c.args[1]) if len(c.args) > 1 else None
+            ok = isinstance(d, ast.Call) and src(d.func) == 'object' and not d.args
+        rep.ob('R18.9', f.key, f.where(c), ok, 'the end of the recursion is detected by StopIteration (or a private sentinel)' if ok else
+               f'`{src(c)}` uses a value the recursion itself may yield as end marker: an item equal to it is stored as the end of the recursion and served as such ever after', statement='end-by-stopiteration')
+
+
+def check_class_keywords(model, rep):
+    """R18.10: the class keywords of a Recursion subclass (version=...) reach types.ImmutableMeta, which stores the version that enters the
+    name of the cache directory.  A metaclass method that accepts **kwargs must hand them on to the same method of its parent; dropping
+    them makes `version` a no-op, so entries computed by an older definition keep being served."""
+    n = 0
+    for c in model.classes.values():
+        if c.module.short not in ('cache', 'types') or not any(b.endswith('Meta') or b == 'type' for b in c.base_exprs):
+            continue
+        for name in ('__new__', '__init__'):
+            mem = c.members.get(name)
+            if mem is None or mem.func is None or mem.func.node.args.kwarg is None:
+                continue
+            f = mem.func
+            kw = f.node.args.kwarg.arg
+            sup = [x for x in calls_in(f.node) if isinstance(x.func, ast.Attribute) and x.func.attr == name and src(x.func.value).startswith('super(')]
+            n += 1
+            ok = len(sup) >= 1 and all(any(k.arg is None and src(k.value) == kw for k in x.keywords) for x in sup)
+            rep.ob('R18.10', f.key, f.where(sup[0]) if sup else f.where(), ok, f'{c.name}.{name} hands its remaining class keywords to the parent metaclass' if ok else
+                   f'{c.name}.{name} accepts **{kw} but does not pass them to super().{name}: the `version` keyword of a subclass never reaches ImmutableMeta, so the cache directory name does not change when the version is '
+                   'incremented and stale entries keep being served', statement=f'class-keywords {name}')
+    if n < 2:
+        raise AnalysisError(f'R18.10: only {n} metaclass methods with **kwargs found')
+
+
 def run(model, rep, tier):
     rep.explanation = (
         'Typestate analysis of cache.function.<locals>.wrapper and Recursion.__iter__ over all structurally enumerated, flag-sensitive paths (loops unrolled twice for the recursion), with '
@@ -464,6 +508,10 @@ def run(model, rep, tier):
     check_key(model, rep)
     check_recursion_specifics(model, rep)
     check_users(model, rep)
+    rep.rule('R18.9', 'the end of a recursion is StopIteration, not a value the recursion may yield')
+    check_end_of_recursion(model, rep)
+    rep.rule('R18.10', 'class keywords (version) are handed on by the metaclass to ImmutableMeta')
+    check_class_keywords(model, rep)
     from rules.c17 import check_state_coverage
     from rules.c03 import _Rename
     check_state_coverage(model, _Rename(rep, {'R17.3': 'R18.4'}))   # the key of a memoised solve includes the hash of its method object
